@@ -71,6 +71,7 @@ CONFIG = dict(
         "C18_cleanup", "C18_ended_stays_ended", "C18_cleanup_after_end", "C18_bye_ends_session",
         "C18_expire_ends_sessions", "C18_mcu_loss", "C18_mcu_loss_run",
         "C18_delete_owner_only", "C18_delete_owner_only_run", "C18_created_owned",
+        "C18_late_answer_after_end", "C18_unguarded_late_create_orphans",
     ]],
     generated=["Proxy"],
     harness=dict(pkg="proxy", test="TestVerifC18", go="go1.26"),
